@@ -593,6 +593,84 @@ fn stream_doc() {
     out.flush();
 }
 
+fn gen_shape(rng: &mut Rng, depth: u32, dep_names: &[String]) -> Shape {
+    match rng.below(if depth == 0 { 6 } else { 10 }) {
+        0..=3 => Shape::Typed(*rng.pick(&['b', 'n', 's', 'i', 's', 's', 'a', 'o', 'z']), !rng.chance(1, 8)),
+        4 => Shape::Other,
+        5 => {
+            if dep_names.is_empty() {
+                Shape::Typed('s', true)
+            } else {
+                Shape::Ref(rng.pick(dep_names).clone())
+            }
+        }
+        6 => Shape::ArrayOf(Box::new(gen_shape(rng, depth - 1, dep_names))),
+        _ => {
+            let k = *rng.pick(&['a', 'y', 'o']);
+            let n = rng.range(1, 3);
+            Shape::Sub(k, (0..n).map(|_| gen_shape(rng, depth - 1, dep_names)).collect())
+        }
+    }
+}
+
+/// Tag policy and parameter validation through `ApiDescription::register`.
+fn stream_pv() {
+    let mut out = Out::new();
+    let mut rng = Rng::from_env(7);
+    let mut id = 0u64;
+    let n = if is_thorough() { 80000 } else { 8000 };
+    let paths = ["/a", "/a/{x}", "/{x}/{y}", "/a/{r:.*}", "/{x}/b/{r:.*}", "/"];
+    for i in 0..n {
+        // definitions never refer forward to themselves: dep k may only reference deps < k
+        let mut deps: Vec<(String, Shape)> = vec![];
+        for k in 0..rng.below(3) {
+            let names: Vec<String> = deps.iter().map(|d| d.0.clone()).collect();
+            deps.push((format!("D{}", k), gen_shape(&mut rng, 2, &names)));
+        }
+        let dep_names: Vec<String> = deps.iter().map(|d| d.0.clone()).collect();
+        let path = rng.pick_s(&paths).to_string();
+        let mut params = vec![];
+        // mostly the right path parameters with the right types
+        for (name, wild) in template_vars(&path) {
+            if rng.chance(1, 12) {
+                continue; // dropped: mismatch
+            }
+            let shape = if rng.chance(3, 4) {
+                if wild { Shape::ArrayOf(Box::new(Shape::Typed('s', true))) } else { Shape::Typed(*rng.pick(&['s', 'i', 'b', 'n']), true) }
+            } else {
+                gen_shape(&mut rng, 2, &dep_names)
+            };
+            params.push(PvParam { loc: 'p', name, shape });
+        }
+        if rng.chance(1, 12) {
+            params.push(PvParam { loc: 'p', name: "extra".into(), shape: Shape::Typed('s', true) });
+        }
+        for _ in 0..rng.below(3) {
+            let name = rng.pick_s(&["q", "limit", "x", "r", "y"]).to_string();
+            let shape = if rng.chance(2, 3) { Shape::Typed(*rng.pick(&['s', 'i', 'b', 'n']), true) } else { gen_shape(&mut rng, 2, &dep_names) };
+            params.push(PvParam { loc: 'q', name, shape });
+        }
+        let all_tags = ["t1", "t2", "t3"];
+        let defined: Vec<String> = all_tags.iter().filter(|_| rng.chance(1, 2)).map(|s| s.to_string()).collect();
+        let ntags = if i % 3 == 0 { rng.below(3) } else { 1 };
+        let tags: Vec<String> = (0..ntags).map(|_| rng.pick_s(&all_tags).to_string()).collect();
+        let case = PvCase {
+            policy: *rng.pick(&['n', 'a', 'e']),
+            allow_other: rng.chance(1, 2),
+            defined,
+            visible: !rng.chance(1, 5),
+            tags,
+            path,
+            deps,
+            params,
+        };
+        let res = case.run();
+        id += 1;
+        out.line(&format!("pv {} {} => {}", id, case.enc(), res));
+    }
+    out.flush();
+}
+
 fn main() {
     quiet_panics();
     let args: Vec<String> = std::env::args().collect();
@@ -601,6 +679,7 @@ fn main() {
         Some("reg") => stream_reg(),
         Some("rc") => stream_rc(),
         Some("doc") => stream_doc(),
+        Some("pv") => stream_pv(),
         _ => {
             eprintln!("usage: router lk [c01|c04] | reg | rc | doc");
             std::process::exit(2);
